@@ -115,14 +115,15 @@ def c17_rejects(ctx):
 
 
 def _cfg_launch(tier):
-    return [{'powder_given': g, 'use': u} for g in (True, False) for u in (True, False)]
+    return [{'powder_given': g, 'use': u} for g in (True, False) for u in (True, False)] + \
+        [{'powder_given': True, 'use': True, 'bare_unit': tu} for tu in TEMP_UNITS]      # powder temperature as a bare number (0 included)
 
 
 @harness('C17.launch', 'C17', configs=_cfg_launch, functions=FUNCS, must_reach=['check:launch_velocity'],
-         bounds='loop-free: all air / powder temperatures in [-60,60] C; powder temperature given / defaulted; sensitivity on/off',
+         bounds='loop-free: all air / powder temperatures in [-60,60] (C, or the bare number in each preferred temperature unit, 0 included); powder temperature given as quantity / bare number / defaulted; sensitivity on/off',
          stubs=['math.sqrt/exp/pow summarised inside Atmo (not part of the obligation)'],
          engine_opts={'div_check': False})
-def c17_launch(ctx, powder_given, use):
+def c17_launch(ctx, powder_given, use, bare_unit=None):
     p = pybc()
     from py_ballisticcalc.trajectory_calc._trajectory_calc import TrajectoryCalc
     from py_ballisticcalc.interface_config import create_interface_config
@@ -130,8 +131,15 @@ def c17_launch(ctx, powder_given, use):
     mod = ctx.real('modifier', -10, 10)
     air = ctx.real('air_c', -60, 60)
     pw = ctx.real('powder_c', -60, 60)
-    atmo = p.Atmo(p.Distance.Foot(0), p.Pressure.InHg(29.92), p.Temperature.Celsius(air), 0.0,
-                  p.Temperature.Celsius(pw) if powder_given else None)
+    if bare_unit is None:
+        atmo = p.Atmo(p.Distance.Foot(0), p.Pressure.InHg(29.92), p.Temperature.Celsius(air), 0.0,
+                      p.Temperature.Celsius(pw) if powder_given else None)
+    else:
+        bu = getattr(p.Unit, bare_unit)
+        with with_preferred(temperature=bu):
+            # `pw` is the bare number in the preferred unit; its Celsius value is the oracle's
+            atmo = p.Atmo(p.Distance.Foot(0), p.Pressure.InHg(29.92), p.Temperature.Celsius(air), 0.0, pw)
+        pw = c_of(ctx, pw, bare_unit)
     ammo = p.Ammo(p.DragModel(0.3, p.TableG7), p.Velocity.MPS(mv), p.Temperature.Celsius(t0), mod, use)
     shot = p.Shot(p.Weapon(), ammo, atmo=atmo)
     calc = TrajectoryCalc(create_interface_config(None))
